@@ -16,7 +16,7 @@ using namespace sim;
 namespace {
 
 struct SMutex { int num; int owner = -1; VC vc; bool destroyed = false; };
-struct SCond { int num; std::vector<int> waiters; bool destroyed = false; };
+struct SCond { int num; std::vector<int> waiters; bool destroyed = false;  uint64_t wakes = 0; };
 struct SRw { int num; std::vector<int> readers; int writer = -1; int writers_waiting = 0; VC vc_w, vc_r; bool destroyed = false; };
 struct SKey { void (*dtor)(void *); bool alive; };
 
@@ -27,6 +27,7 @@ std::vector<SKey> keys;
 std::vector<SMutex *> mutex_by_num;
 std::vector<SCond *> cond_by_num;
 std::vector<SRw *> rw_by_num;
+uint64_t g_task_cond_wakes[MAXT];          // per task: how often a signal / broadcast (or a spurious wake-up) took it out of a condition wait
 std::vector<int> thread_tasks;             // simulated thread number -> task id
 // Native thread ids. Like glibc (which recycles the stack, and with it the pthread_t value, of a thread that was joined or that
 // finished detached) the most recently released id is handed to the next thread created: a stale id names a LIVE other thread.
@@ -92,6 +93,7 @@ void maybe_spurious() {
   uint32_t i = choose(ST_WAKE, (uint32_t)c->waiters.size());
   int tid = c->waiters[i];
   c->waiters.erase(c->waiters.begin() + i);
+  g_task_cond_wakes[tid]++; c->wakes++;          // a waiter that left for any reason counts: the oracles ask whether anybody was released
   ev("spurious_wake", c->num, tid);
   probe("cond.spurious_wakeup");
   wake(task(tid));
@@ -133,6 +135,9 @@ int live_count(int kind) {
 int mutex_owner(int num) { return num >= 0 && num < (int)mutex_by_num.size() ? mutex_by_num[num]->owner : -1; }
 int mutex_of_addr(const void *a) { auto it = mutexes.find((uintptr_t)a); return it == mutexes.end() ? -1 : it->second->num; }
 int cond_waiters(int num) { return num >= 0 && num < (int)cond_by_num.size() ? (int)cond_by_num[num]->waiters.size() : 0; }
+std::vector<int> cond_waiter_ids(int num) { return num >= 0 && num < (int)cond_by_num.size() ? cond_by_num[num]->waiters : std::vector<int>(); }
+uint64_t cond_wakes(int num) { return num >= 0 && num < (int)cond_by_num.size() ? cond_by_num[num]->wakes : 0; }
+uint64_t task_cond_wakes(int tid) { return tid >= 0 && tid < MAXT ? g_task_cond_wakes[tid] : 0; }
 int cond_of_addr(const void *a) { auto it = conds.find((uintptr_t)a); return it == conds.end() ? -1 : it->second->num; }
 int rw_readers(int num) { return (int)rw_by_num[num]->readers.size(); }
 int rw_writer(int num) { return rw_by_num[num]->writer; }
@@ -147,6 +152,7 @@ void shim_run_begin() {
   for (auto *x : rw_by_num) delete x;
   mutexes.clear(); conds.clear(); rws.clear(); keys.clear();
   mutex_by_num.clear(); cond_by_num.clear(); rw_by_num.clear(); thread_tasks.clear(); slot_task.clear(); free_slots.clear();
+  for (int i = 0; i < MAXT; i++) g_task_cond_wakes[i] = 0;
   memset(last_created_by, -1, sizeof last_created_by);
   memset(created, 0, sizeof created);
   n_dtor_calls = 0;
@@ -347,6 +353,7 @@ int simk_pthread_cond_signal(pthread_cond_t *c) {
     uint32_t i = choose(ST_WAKE, (uint32_t)C->waiters.size());
     int tid = C->waiters[i];
     C->waiters.erase(C->waiters.begin() + i);
+    C->wakes++; g_task_cond_wakes[tid]++;
     wake(task(tid));
     // POSIX: "at least one" — occasionally release one more
     if (!C->waiters.empty() && cfg().p[ST_SPURIOUS] > 0 && flip(ST_SPURIOUS, cfg().p[ST_SPURIOUS])) {
@@ -354,6 +361,7 @@ int simk_pthread_cond_signal(pthread_cond_t *c) {
       int t2 = C->waiters[j];
       C->waiters.erase(C->waiters.begin() + j);
       probe("cond.signal_woke_two");
+      C->wakes++; g_task_cond_wakes[t2]++;
       wake(task(t2));
     }
   } else probe("cond.signal_no_waiter");
@@ -366,7 +374,7 @@ int simk_pthread_cond_broadcast(pthread_cond_t *c) {
   maybe_spurious();
   ev("cond_broadcast", C->num, (int64_t)C->waiters.size());
   if (C->waiters.size() >= 2) probe("cond.broadcast_woke_many");
-  for (int tid : C->waiters) wake(task(tid));
+  for (int tid : C->waiters) { C->wakes++; g_task_cond_wakes[tid]++; wake(task(tid)); }
   C->waiters.clear();
   return 0;
 }
